@@ -5,9 +5,11 @@ import (
 	"sort"
 
 	"github.com/golang/geo/r2"
+	"github.com/golang/geo/r3"
 	"github.com/golang/geo/s2"
 
 	"verif/mc/core"
+	"verif/mc/exact"
 	"verif/mc/lattice"
 	"verif/mc/refmodel"
 )
@@ -125,7 +127,10 @@ func runC06(c *core.Ctx) {
 		"one-sided cell predicates are asserted with strictly interior probes only",
 	}
 	colls := c06Collections(c)
-	c.Note("collections", len(colls))
+	c.Note("catalogue_collections", len(colls))
+	corner := c06CornerCollections(c)
+	c.Note("corner_lattice_collections", len(corner))
+	colls = append(colls, corner...)
 	c.ParallelFor(len(colls), func(ci int) {
 		if c.Expired() {
 			return
@@ -477,6 +482,40 @@ func c06Structure(c *core.Ctx, ci int, co c06Coll, shapes []s2.Shape, refs [][]*
 			}
 		}
 	}
+	// exact version of "an edge is listed in every index cell it meets": within a face a geodesic is a
+	// straight segment in (u,v), so "segment meets the closed cell rectangle" is decided exactly
+	// (bounding intervals by exact comparisons, the separating-line test by exact determinants).
+	var exactPairs, exactMeet int64
+	for si, s := range shapes {
+		for e := 0; e < s.NumEdges(); e++ {
+			ed := s.Edge(e)
+			fa, _, _ := s2XYZToFaceUV(ed.V0)
+			fb, _, _ := s2XYZToFaceUV(ed.V1)
+			if fa != fb {
+				continue
+			}
+			A, B := faceCoords(fa, ed.V0), faceCoords(fa, ed.V1)
+			if A.Comp(2).Sign() <= 0 || B.Comp(2).Sign() <= 0 {
+				continue
+			}
+			for k := range cells {
+				if cells[k].ID.Face() != fa {
+					continue
+				}
+				exactPairs++
+				b := s2.CellFromCellID(cells[k].ID).BoundUV()
+				if !segmentMeetsRect(A, B, b) {
+					continue
+				}
+				exactMeet++
+				if !listed(k, si, e) {
+					c.Violate("index-structure", "wrong-answer", "an edge is not listed in an index cell although the exact edge meets the exact cell", []int{ci, si, e, k}, map[string]any{"collection": co.name, "shape": co.shapes[si].name, "edge": e, "cell": cells[k].ID.String(), "v0": ptStr(ed.V0), "v1": ptStr(ed.V1)})
+				}
+			}
+		}
+	}
+	c.Count("structure/exact_edge_cell_pairs", exactPairs)
+	c.Count("structure/exact_edge_meets_cell", exactMeet)
 	// containsCenter for every dimension-2 shape in every cell
 	for k, cell := range cells {
 		ctr := cell.ID.Point()
@@ -531,4 +570,130 @@ func abs64(x float64) float64 {
 		return -x
 	}
 	return x
+}
+
+// faceCoords returns p in the (u,v,w) frame of the face, exactly (the axes are signed unit axes).
+func faceCoords(face int, p s2.Point) exact.V {
+	var v r3.Vector
+	switch face {
+	case 0:
+		v = r3.Vector{X: p.Y, Y: p.Z, Z: p.X}
+	case 1:
+		v = r3.Vector{X: -p.X, Y: p.Z, Z: p.Y}
+	case 2:
+		v = r3.Vector{X: -p.X, Y: -p.Y, Z: p.Z}
+	case 3:
+		v = r3.Vector{X: -p.Z, Y: -p.Y, Z: -p.X}
+	case 4:
+		v = r3.Vector{X: -p.Z, Y: p.X, Z: -p.Y}
+	default:
+		v = r3.Vector{X: p.Y, Y: p.X, Z: -p.Z}
+	}
+	return exact.FromVector(v)
+}
+
+// segmentMeetsRect decides exactly whether the segment from A to B (homogeneous face coordinates with
+// w > 0, i.e. the points (U/W, V/W)) meets the closed rectangle.
+func segmentMeetsRect(A, B exact.V, b r2.Rect) bool {
+	ge := func(P exact.V, comp int, lim float64) bool { // coordinate >= lim
+		return P.Comp(comp).Cmp(exact.FromFloat(lim).Mul(P.Comp(2))) >= 0
+	}
+	le := func(P exact.V, comp int, lim float64) bool {
+		return P.Comp(comp).Cmp(exact.FromFloat(lim).Mul(P.Comp(2))) <= 0
+	}
+	if !(ge(A, 0, b.X.Lo) || ge(B, 0, b.X.Lo)) || !(le(A, 0, b.X.Hi) || le(B, 0, b.X.Hi)) ||
+		!(ge(A, 1, b.Y.Lo) || ge(B, 1, b.Y.Lo)) || !(le(A, 1, b.Y.Hi) || le(B, 1, b.Y.Hi)) {
+		return false
+	}
+	pos, neg := false, false
+	for _, cu := range []float64{b.X.Lo, b.X.Hi} {
+		for _, cv := range []float64{b.Y.Lo, b.Y.Hi} {
+			c := exact.FromVector(r3.Vector{X: cu, Y: cv, Z: 1})
+			switch exact.Det3(A, B, c).Sign() {
+			case 1:
+				pos = true
+			case -1:
+				neg = true
+			default:
+				return true // a corner lies exactly on the line and the intervals overlap
+			}
+		}
+	}
+	return pos && neg
+}
+
+// c06CornerCollections: a lattice aimed at the padding bands of the index.  A parent cell is forced
+// to be subdivided by filler edges deep inside its grandchildren; one more edge E = (A, P) ends at a
+// point P placed on a grid of offsets of a fraction of the cell padding around the common corner of
+// the four children, and arrives from each of eight directions (steep and shallow slopes).
+func c06CornerCollections(c *core.Ctx) []c06Coll {
+	const padding = 2 * (0.5*2.220446049250313e-16 + 4.5*2.220446049250313e-16) // cellPadding of shapeindex.go
+	parents := []s2.CellID{s2.CellIDFromFace(0), s2.CellIDFromFace(3).Children()[2], s2.CellIDFromFace(1).Children()[1].Children()[3].Children()[0]}
+	if !c.Quick() {
+		parents = append(parents, s2.CellIDFromFace(4).Children()[0].Children()[0].Children()[2].Children()[1].Children()[3], s2.CellIDFromFace(2).Children()[2].Children()[1], s2.CellIDFromFace(5))
+	}
+	offs := core.Pick(c, []float64{-1, -0.25, 0.25, 1}, []float64{-2, -1, -0.5, -0.25, 0, 0.25, 0.5, 1, 2})
+	dirs := [][2]float64{{0.25, -1}, {-0.25, -1}, {0.25, 1}, {-0.25, 1}, {1, 0.25}, {1, -0.25}, {-1, 0.25}, {-1, -0.25}}
+	var out []c06Coll
+	for pi, parent := range parents {
+		face := parent.Face()
+		cell := s2.CellFromCellID(parent)
+		b := cell.BoundUV()
+		cu, cv := 0.5*(b.X.Lo+b.X.Hi), 0.5*(b.Y.Lo+b.Y.Hi)
+		// the exact split point used by the index is the (u,v) of the cell's centre in (s,t); take it
+		// from the children instead of assuming the uv midpoint
+		ch := s2.CellFromCellID(parent.Children()[0]).BoundUV()
+		for _, x := range []float64{ch.X.Lo, ch.X.Hi} {
+			if x != b.X.Lo && x != b.X.Hi {
+				cu = x
+			}
+		}
+		for _, y := range []float64{ch.Y.Lo, ch.Y.Hi} {
+			if y != b.Y.Lo && y != b.Y.Hi {
+				cv = y
+			}
+		}
+		w := 0.25 * (b.X.Hi - b.X.Lo)
+		mk := func(u, v float64) s2.Point {
+			return s2.Point{Vector: faceUVToXYZ(face, u, v).Normalize()}
+		}
+		var filler []c06Shape
+		for _, child := range parent.Children() {
+			for _, gc := range child.Children() {
+				gc := gc
+				filler = append(filler, c06Shape{"filler", func() s2.Shape {
+					pl := s2.Polyline{gc.Point(), gc.Children()[0].Point()}
+					return &pl
+				}, nil, false})
+			}
+		}
+		for oi, du := range offs {
+			for oj, dv := range offs {
+				for di, d := range dirs {
+					P := mk(cu+du*padding, cv+dv*padding)
+					A := mk(cu+du*padding+d[0]*w, cv+dv*padding+d[1]*w)
+					shapes := append([]c06Shape(nil), filler...)
+					shapes = append(shapes, c06Shape{"probe-edge", func() s2.Shape { pl := s2.Polyline{A, P}; return &pl }, nil, false})
+					out = append(out, c06Coll{fmt.Sprintf("corner-lattice(parent %d, offset %d,%d, direction %d)", pi, oi, oj, di), shapes})
+				}
+			}
+		}
+	}
+	return out
+}
+
+func faceUVToXYZ(face int, u, v float64) r3.Vector {
+	switch face {
+	case 0:
+		return r3.Vector{X: 1, Y: u, Z: v}
+	case 1:
+		return r3.Vector{X: -u, Y: 1, Z: v}
+	case 2:
+		return r3.Vector{X: -u, Y: -v, Z: 1}
+	case 3:
+		return r3.Vector{X: -1, Y: -v, Z: -u}
+	case 4:
+		return r3.Vector{X: v, Y: -1, Z: -u}
+	}
+	return r3.Vector{X: v, Y: u, Z: -1}
 }
